@@ -228,6 +228,25 @@ def run(ctx: Any, prog: Program) -> None:
     ctx.check('C15.F2', not (has_override and reads_self_version and not passes_version), vtf, call[0] if call else sv,
               'save(version=...) writes the overriding version into the header but _depth_range() chooses 6 or 7 cubemap sides from self.version: overriding across 7.5 writes a side count the reader of that version does not expect '
               '(all later frames are read from shifted offsets)', func='VTF.save', text='side sequence follows the written version')
+    # compute_mipmaps() runs inside save() *before* frames are loaded: nothing reachable from it may drop a frame's pending
+    # file reference, otherwise the stored mipmaps of a texture that was read but never touched are replaced by regenerated ones
+    cm = vm['compute_mipmaps']
+    reach_: List[Tuple[str, ast.AST]] = [('VTF.compute_mipmaps', cm)]
+    seen_ = {'compute_mipmaps'}
+    todo_ = [cm]
+    while todo_:
+        f_ = todo_.pop()
+        for c in ast.walk(f_):
+            if isinstance(c, ast.Call) and isinstance(c.func, ast.Attribute) and c.func.attr not in seen_:
+                for owner, table in (('Frame', fr), ('VTF', vm)):
+                    if c.func.attr in table and c.func.attr not in ('load',):
+                        seen_.add(c.func.attr)
+                        reach_.append((f'{owner}.{c.func.attr}', table[c.func.attr]))
+                        todo_.append(table[c.func.attr])
+    for qual, f_ in reach_:
+        drops = [n for n in ast.walk(f_) if isinstance(n, ast.Assign) and any(isinstance(t, ast.Attribute) and t.attr == '_fileinfo' for t in ast.walk(n.targets[0]))]
+        ctx.check('C15.F2', not drops, vtf, drops[0] if drops else f_, f'{qual} is reachable from compute_mipmaps(), which save() runs before the frames are loaded, and assigns `_fileinfo`: a texture that was read and saved again '
+                  'without being touched loses its stored mipmaps (they are regenerated from the largest level instead)', func=qual, text=f'{qual} keeps pending file data')
     # ---- F3 --------------------------------------------------------------------------------------------------
     table = fmt_table(vtf)
     helpers: Dict[str, Tuple[List[str], List[ast.stmt]]] = {}
@@ -595,6 +614,7 @@ MUTANTS: List[Dict[str, Any]] = [
     {'id': 'read_loop_product_ok', 'file': 'vtf.py', 'find': "            for frame_ind in range(frame_count):\n                for depth_or_cube in depth_seq:\n                    frame = vtf._frames[\n                        frame_ind,\n                        depth_or_cube,\n                        data_mipmap,\n                    ] = Frame(mip_width, mip_height)\n                    if not header_only:\n                        # noinspection PyProtectedMember\n                        frame._fileinfo = (file, high_res_offset, fmt)\n                        high_res_offset += fmt.frame_size(mip_width, mip_height)",
      'replace': "            for frame_ind, depth_or_cube in itertools.product(range(frame_count), depth_seq):\n                if True:\n                    frame = vtf._frames[\n                        frame_ind,\n                        depth_or_cube,\n                        data_mipmap,\n                    ] = Frame(mip_width, mip_height)\n                    if not header_only:\n                        # noinspection PyProtectedMember\n                        frame._fileinfo = (file, high_res_offset, fmt)\n                        high_res_offset += fmt.frame_size(mip_width, mip_height)",
      'expect': None, 'note': 'negative control: itertools.product in the same order is the same loop nest'},
+    {'id': 'rescale_drops_fileinfo', 'file': 'vtf.py', 'find': "        if self._data is None:\n            self._data = _BLANK_PIXEL * (self.width * self.height)\n        if larger._data is not None:", 'replace': "        if self._data is None:\n            self._data = _BLANK_PIXEL * (self.width * self.height)\n        self._fileinfo = None\n        if larger._data is not None:", 'expect': 'C15.F2'},
     {'id': 'bounds_old', 'file': 'vtf.py', 'find': "        if not (0 <= x < self.width and 0 <= y < self.height):", 'replace': "        if x > self.width or y > self.height:", 'expect': 'C15.F4'},
     {'id': 'bounds_inclusive', 'file': 'vtf.py', 'nth': 1, 'find': "        if not (0 <= x < self.width and 0 <= y < self.height):", 'replace': "        if not (0 <= x <= self.width and 0 <= y < self.height):", 'expect': 'C15.F4'},
     {'id': 'bounds_or_form', 'file': 'vtf.py', 'find': "        if not (0 <= x < self.width and 0 <= y < self.height):", 'replace': "        if x < 0 or y < 0 or x >= self.width or y >= self.height:", 'expect': None, 'note': 'negative control: equivalent guard'},
